@@ -15,8 +15,8 @@ STORY_POOL = ['A', 'AB', 'C', 'D', 'E', 'F', 'G']
 ITEM_POOL = ['a', 'ab', 'c', 'd', 'e', 'f', 'g']
 RO_ID = 'RO1'
 # IDs that look like numbers, carry spaces, markup-significant and non-ASCII characters, differ only in case
-EXOTIC_IDS = ['10', '9', 'A', 'a', 'a b', 'x&y<z>', 'Ä\U0001F600', 'q\'"]=[', ' lead', 'trail ']
-EXOTIC_QUICK = ['10', 'A', 'a', 'x&y< z>\'"]']
+EXOTIC_IDS = ['10', '9', 'A', 'a', 'A ', ' A', 'a b', 'x&y<z>', 'Ä\U0001F600', 'q\'"]=[']
+EXOTIC_QUICK = ['10', 'A', 'a', 'A ', 'x&y< z>\'"]']
 
 SPECIAL = 'x&y<z>"q\' é\U0001F600é'     # markup-significant, non-BMP, combining
 
@@ -238,8 +238,8 @@ def ro_text(stories, layout='before', meta=None, ro_id=RO_ID, msg_id=1000, envel
     body = rocreate_xml(stories, layout, meta, ro_id)
     if envelope_variant == 'trailing':
         # roCreate is neither the last nor the fourth child of the root; no ncsID
-        return (f'<mos><messageID>{msg_id}</messageID><mosID>m.os</mosID><extra k="v">before</extra>{body}'
-                f'<trailer>after<deep/></trailer></mos>')
+        return (f'<mos><messageID>{msg_id}</messageID><mosID>m.os</mosID><extra k="v">before</extra><extra2/>{body}'
+                f'<trailer>after<deep/></trailer><trailer2/></mos>')
     return envelope(body, msg_id=msg_id)
 
 
